@@ -159,6 +159,18 @@ class ShapeChanged(Exception):
     pass
 
 
+def raised_in_sut(exc):
+    """True if the innermost frame of the exception's traceback is robotools code, i.e. an *observation*
+    (volumes, history, report, composition, str, ...) of the system under test raised - that is behaviour of
+    the code under test, not a fault of the harness."""
+    tb = exc.__traceback__
+    last = None
+    while tb is not None:
+        last = tb
+        tb = tb.tb_next
+    return last is not None and last.tb_frame.f_code.co_filename.startswith(rtmod.PKG_PREFIX)
+
+
 def digest_events(events):
     h = hashlib.sha256()
     h.update(json.dumps(events, sort_keys=True, default=str).encode())
